@@ -803,3 +803,85 @@ type sortRec struct {
 	elem             types.Type
 	pi, inv          string
 }
+
+func init() {
+	reg := func(name string, f intrinsic) { intrinsics[name] = f }
+	nothing := func(ex *Exec, fr *Frame, st *State, reach string, a []Val, sig *types.Signature, pos token.Pos) Val {
+		return packResults(sig, ex.freshResults(st, sig, "r"))
+	}
+	// ---- flag: the FlagSet calls back into the registered Values; modelled as
+	// havoc of every registered location (each Set method is verified on its own
+	// for arbitrary receiver states and arguments).
+	reg("flag.NewFlagSet", func(ex *Exec, fr *Frame, st *State, reach string, a []Val, sig *types.Signature, pos token.Pos) Val {
+		r := ex.newRef(st, "flagset")
+		return Val{T: sig.Results().At(0).Type(), L: []string{r}}
+	})
+	reg("(*flag.FlagSet).SetOutput", nothing)
+	regVar := func(ex *Exec, fr *Frame, st *State, reach string, a []Val, sig *types.Signature, pos token.Pos) Val {
+		fsr := a[0].term()
+		target := a[1]
+		if target.LV == nil && len(target.L) == 2 {
+			// flag.Value interface holding a pointer
+			ptrT, ok := ex.eng.tidTypes[atoiSafe(target.L[0])]
+			if !ok {
+				panic(unsupported("flag.Var with unknown dynamic type"))
+			}
+			target = Val{T: ptrT, L: []string{target.L[1]}}
+		}
+		lv := ex.ptrLV(target)
+		ex.flagRegs[fsr] = append(ex.flagRegs[fsr], lv)
+		return Val{T: sig.Results()}
+	}
+	reg("(*flag.FlagSet).Var", regVar)
+	reg("(*flag.FlagSet).BoolVar", regVar)
+	reg("(*flag.FlagSet).StringVar", regVar)
+	reg("(*flag.FlagSet).Parse", func(ex *Exec, fr *Frame, st *State, reach string, a []Val, sig *types.Signature, pos token.Pos) Val {
+		for _, lv := range ex.flagRegs[a[0].term()] {
+			ex.store(st, lv, ex.freshVal(st, lv.T, "flagval"))
+		}
+		ex.assumedUsed["flag.FlagSet.Parse: calls only the registered Values' Set methods (havoc of registered locations)"] = true
+		return packResults(sig, ex.freshResults(st, sig, "flagparse"))
+	})
+	reg("(*flag.FlagSet).Visit", func(ex *Exec, fr *Frame, st *State, reach string, a []Val, sig *types.Signature, pos token.Pos) Val {
+		cl := a[1].Fn
+		if cl == nil {
+			panic(unsupported("FlagSet.Visit with unknown function"))
+		}
+		// discover what the callback writes, then havoc exactly that (the callback
+		// runs zero or more times with arbitrary *flag.Flag arguments)
+		d := ex.cloneForTrial()
+		d.wlog = &writeLog{}
+		ds := st.clone()
+		arg := d.freshVal(ds, cl.Fn.Signature.Params().At(0).Type(), "flag")
+		d.sc.assert(mkCmp(">", arg.term(), "0"))
+		d.callFunction(fr.cloneRegs(), ds, reach, cl.Fn, cl.Bindings, []Val{arg}, cl.Fn.Signature, pos)
+		seen := map[string]bool{}
+		for _, w := range d.wlog.recs {
+			if w.comp == compAlloc || seen[w.comp] {
+				continue
+			}
+			seen[w.comp] = true
+			srt := d.compSort[w.comp]
+			ex.compSort[w.comp] = srt
+			st.heap[w.comp] = ex.sc.fresh("visit_hv", srt)
+			ex.noteWrite(w.comp, "*")
+		}
+		// the callback itself must be safe for every flag
+		farg := ex.freshVal(st, cl.Fn.Signature.Params().At(0).Type(), "flag")
+		ex.sc.assert(mkCmp(">", farg.term(), "0"))
+		s2 := st.clone()
+		ex.callFunction(fr, s2, reach, cl.Fn, cl.Bindings, []Val{farg}, cl.Fn.Signature, pos)
+		return Val{T: sig.Results()}
+	})
+	ifaceIntrinsics["error.Error"] = func(ex *Exec, fr *Frame, st *State, reach string, recv Val, args []Val, sig *types.Signature, pos token.Pos) Val {
+		return scalar(tString, ex.freshStr("errstr"))
+	}
+	ifaceIntrinsics["fs.FileInfo.IsDir"] = func(ex *Exec, fr *Frame, st *State, reach string, recv Val, args []Val, sig *types.Signature, pos token.Pos) Val {
+		return scalar(tBool, ex.sc.fresh("isdir", sBool))
+	}
+	ifaceIntrinsics["io.Writer.Write"] = func(ex *Exec, fr *Frame, st *State, reach string, recv Val, args []Val, sig *types.Signature, pos token.Pos) Val {
+		return ex.envCall(fr, st, reach, "io.Writer.Write", sig, args, pos)
+	}
+	reg("(*bytes.Buffer).WriteString", nothing)
+	reg("(*bytes.Buffer).String", nothing)
+}
